@@ -6,26 +6,26 @@ import gen
 import rt
 
 PROPS = {
-    "C01": {"profiles": ["struct-flat", "member-instrs", "shape-change"], "n_quick": 1800},
-    "C02": {"profiles": ["enum", "multi-counterpart", "shape-change", "enum-members"], "n_quick": 2000},
-    "C03": {"profiles": ["tree", "parents"], "n_quick": 1800},
-    "C04": {"profiles": ["traits", "generics"], "n_quick": 1500},
-    "C05": {"profiles": ["member-instrs", "multi-counterpart", "enum-members"], "n_quick": 1800},
-    "C06": {"profiles": ["multi-counterpart", "tree", "enum", "parents"], "n_quick": 2000},
-    "C07": {"profiles": ["struct-flat", "tree", "enum", "shape-change"], "n_quick": 1800},
-    "C08": {"profiles": ["trait-params", "tree", "trait-repeat"], "n_quick": 1800},
-    "C09": {"profiles": ["enum-prim"], "n_quick": 1200},
-    "C10": {"profiles": ["expr"], "n_quick": 1500},
-    "C11": {"profiles": ["generics"], "n_quick": 1500},
-    "C12": {"profiles": ["traits", "member-instrs", "enum"], "n_quick": 1500},
-    "C13": {"profiles": ["struct-flat", "enum", "tree", "trait-params", "unknowns"], "n_quick": 1200, "backends": ["s1", "s2"]},
-    "C14": {"profiles": ["repeat", "trait-repeat"], "n_quick": 1800},
-    "C15": {"profiles": ["faults", "hostile", "parents", "trait-repeat", "unknowns"], "n_quick": 2400},
-    "C16": {"profiles": ["hostile", "enum-prim", "tree", "faults", "parents", "unknowns", "member-instrs"], "n_quick": 3000},
-    "C17": {"profiles": ["struct-flat", "enum", "tree", "trait-params", "generics", "shape-change"], "n_quick": 1800},
-    "C18": {"profiles": ["hostile", "struct-flat", "enum", "tree", "unknowns"], "n_quick": 1800, "backends": ["s1", "s2"]},
-    "C19": {"profiles": ["faults", "hostile", "multi-counterpart", "trait-repeat"], "n_quick": 1500},
-    "C20": {"profiles": ["expr", "struct-flat", "enum", "tree", "parents"], "n_quick": 1500},
+    "C01": {"profiles": ["struct-flat", "member-instrs", "shape-change"], "n_quick": 5400},
+    "C02": {"profiles": ["enum", "multi-counterpart", "shape-change", "enum-members"], "n_quick": 6000},
+    "C03": {"profiles": ["tree", "parents"], "n_quick": 5400},
+    "C04": {"profiles": ["traits", "generics"], "n_quick": 4500},
+    "C05": {"profiles": ["member-instrs", "multi-counterpart", "enum-members"], "n_quick": 5400},
+    "C06": {"profiles": ["multi-counterpart", "tree", "enum", "parents"], "n_quick": 6000},
+    "C07": {"profiles": ["struct-flat", "tree", "enum", "shape-change"], "n_quick": 5400},
+    "C08": {"profiles": ["trait-params", "tree", "trait-repeat"], "n_quick": 5400},
+    "C09": {"profiles": ["enum-prim"], "n_quick": 3600},
+    "C10": {"profiles": ["expr"], "n_quick": 4500},
+    "C11": {"profiles": ["generics"], "n_quick": 4500},
+    "C12": {"profiles": ["traits", "member-instrs", "enum"], "n_quick": 4500},
+    "C13": {"profiles": ["struct-flat", "enum", "tree", "trait-params", "unknowns"], "n_quick": 3600, "backends": ["s1", "s2"]},
+    "C14": {"profiles": ["repeat", "trait-repeat"], "n_quick": 5400},
+    "C15": {"profiles": ["faults", "hostile", "parents", "trait-repeat", "unknowns"], "n_quick": 7200},
+    "C16": {"profiles": ["hostile", "enum-prim", "tree", "faults", "parents", "unknowns", "member-instrs"], "n_quick": 9000},
+    "C17": {"profiles": ["struct-flat", "enum", "tree", "trait-params", "generics", "shape-change"], "n_quick": 5400},
+    "C18": {"profiles": ["hostile", "struct-flat", "enum", "tree", "unknowns"], "n_quick": 5400, "backends": ["s1", "s2"]},
+    "C19": {"profiles": ["faults", "hostile", "multi-counterpart", "trait-repeat"], "n_quick": 4500},
+    "C20": {"profiles": ["expr", "struct-flat", "enum", "tree", "parents"], "n_quick": 4500},
 }
 
 RULES = {
@@ -150,8 +150,8 @@ def oracle_c16(cases, results):
 def oracle_c19(cases, results, seed, thorough):
     fails = []
     src = dict(cases)
-    sub = cases if thorough else cases[: 1500]
-    _, outs1, nondet = L.run_harness("s1", sub, no_in=True, repeat=2)
+    sub = cases
+    _, outs1, nondet = L.run_harness("s1", sub, no_in=True, repeat=3 if not thorough else 6)
     for i in nondet:
         fails.append({"source": src[i], "what": "two expansions in one process differ", "shrinkable": False})
     procs = 4 if thorough else 1
@@ -462,6 +462,44 @@ def oracle_c11(cases, seed, thorough):
             st = re.sub(r"::", "", im["self_ty"])
             if re.search(r"<[^<>]*(:|=|\bconst\b)", st):
                 fails.append({"source": src[i], "what": "the deriving type is not applied in argument form: bounds / defaults / `const` appear in its argument list", "detail": im["self_ty"]})
+                break
+    return fails, n
+
+
+def oracle_c11_where(seed, thorough):
+    """each impl carries the where-clause dedicated to its counterpart, else the default one, else none"""
+    fails = []
+    items = []
+    for k, prof in enumerate(["generics", "multi-counterpart"]):
+        items += gen.gen_items(prof, seed * 1000 + 620 + k, 300 if not thorough else 3000)
+    items = [it for it in items if any(a.name == "where_clause" for a in it.attrs)]
+    srcs = [(it.meta["id"], gen.render(it)) for it in items]
+    outs, an = L.analyze("s1", srcs)
+    n = 0
+    for it, (i, s) in zip(items, srcs):
+        if outs[i][0] != "OK" or not an.get(i, {}).get("parse_ok"):
+            continue
+        cps = {norm_ty(c.replace("::<", "<")) for c in it.meta.get("cparts", [])}
+        ded, default = {}, None
+        for a in it.attrs:
+            if a.name != "where_clause" or a.args is None:
+                continue
+            left, bar, right = a.args.partition("|")
+            if bar and norm_ty(left.replace("::<", "<")) in cps:
+                ded.setdefault(norm_ty(left.replace("::<", "<")), right)
+            elif default is None:
+                default = a.args
+        n += 1
+        for im in an[i]["items"]:
+            if im["kind"] != "impl":
+                continue
+            arg = im["trait_args"].strip()
+            arg = arg[1:-1].strip() if arg.startswith("<") else arg
+            cp = norm_ty(re.sub(r"^&\s*('o2o\s*)?", "", arg)).replace("::<", "<")
+            want = ded.get(cp, default)
+            strip = lambda t: norm_ty(t or "").rstrip(",")
+            if strip(want) != strip(im.get("where", "")):
+                fails.append({"source": s, "what": f"impl for counterpart {cp} carries where-clause `{im.get('where', '')}`, the instructions designate `{want or ''}`"})
                 break
     return fails, n
 
@@ -895,7 +933,72 @@ def write_out_members(members):
     return out
 
 
+TRAIT_KINDS = ["vars", "update", "quick_return", "default_case"]
+
+
+def write_out_traits(it):
+    """documented meaning of trait-level repeat: returns a copy of the item without repeat / skip_repeat / stop_repeat
+    marks and with the repeated parameters written on every instruction they reach; None when the documented meaning
+    is a diagnostic (unterminated repeat, a parameter that would be overridden)"""
+    it2 = copy.deepcopy(it)
+    templates = {}
+    for a in it2.attrs:
+        if not (a.tag and a.tag[0] == "trait" and len(a.tag) > 2):
+            continue
+        info = a.tag[2]
+        key = a.name
+        marks = info["marks"]
+        rep = next((m for m in marks if m.startswith("repeat")), None)
+        if "stop_repeat" in marks:
+            templates.pop(key, None)
+        own = {k: info[k] for k in TRAIT_KINDS}
+        if rep is not None:
+            if key in templates:
+                return None
+            inner = rep[len("repeat("):-1].strip() if rep.startswith("repeat(") else ""
+            covered = [x.strip() for x in inner.split(",") if x.strip()] or TRAIT_KINDS
+            templates[key] = (covered, dict(own))
+        elif key in templates and "skip_repeat" not in marks:
+            covered, tv = templates[key]
+            for k in covered:
+                if own[k] is not None:
+                    return None
+                own[k] = tv[k]
+        ps = [x for x in [own["vars"]] + info["other"] if x] + [x for x in (own["update"], own["quick_return"], own["default_case"]) if x]
+        if sum(1 for x in (own["update"], own["quick_return"], own["default_case"]) if x) > 1:
+            return None  # the written-out form cannot hold two tails in one instruction
+        a.args = info["head"] + (" | " + ", ".join(ps) if ps else "")
+    return it2
+
+
+def oracle_c14_traits(seed, thorough):
+    fails = []
+    items = gen.gen_items("trait-repeat", seed * 1000 + 460, 600 if not thorough else 6000)
+    pairs = []
+    for it in items:
+        it2 = write_out_traits(it)
+        if it2 is None:
+            continue
+        pairs.append((it.meta["id"], gen.render(it), gen.render(it2)))
+    a = expand("s1", [(i, s) for i, s, _ in pairs])
+    b = expand("s1", [(i, s2) for i, _, s2 in pairs])
+    n = 0
+    for i, s, s2 in pairs:
+        if a[i][0] in ("LIBERR", "PANIC") or b[i][0] in ("LIBERR", "PANIC"):
+            continue
+        n += 1
+        if a[i] != b[i]:
+            fails.append({"source": s, "what": "trait-level repeat differs from its written-out form", "detail": {"written_out": s2, "a": str(a[i])[:300], "b": str(b[i])[:300]}})
+    return fails, n
+
+
 def oracle_c14(cases, seed, thorough):
+    ft, nt = oracle_c14_traits(seed, thorough)
+    fm, nm = oracle_c14_members(cases, seed, thorough)
+    return ft + fm, nt + nm
+
+
+def oracle_c14_members(cases, seed, thorough):
     fails = []
     items = gen.gen_items("repeat", seed * 1000 + 450, 500 if not thorough else 6000)
     pairs = []
@@ -944,7 +1047,7 @@ RT_FAMILY = {"C01": "flat", "C07": "flat7", "C08": "flat", "C02": "enum", "C03":
 
 def oracle_rt(prop, seed, thorough):
     fam = RT_FAMILY[prop]
-    fails, nmods, ntests, known = rt.campaign(fam, seed * 100 + int(prop[1:]), 80 if not thorough else 400)
+    fails, nmods, ntests, known = rt.campaign(fam, seed * 100 + int(prop[1:]), 150 if not thorough else 600)
     return fails, nmods, ntests, len(known)
 
 
@@ -991,7 +1094,7 @@ def run_oracle(prop, cases, results, seed, thorough, disagreements):
             out["name"] = "fault injection (15 documented misuse classes, single and paired, random position and spelling) on the real derive"
             out["failures"], out["evaluated"] = oracle_c15(cases, seed, thorough)
         elif prop == "C14":
-            out["name"] = "metamorphic: member-level repeat vs the harness's own written-out form on the real derive"
+            out["name"] = "metamorphic: member-level, variant-level and trait-level repeat vs the harness's own written-out form on the real derive"
             out["failures"], out["evaluated"] = oracle_c14(cases, seed, thorough)
         elif prop == "C17":
             out["name"] = "syn-2 `File` parse + shape inspection of the real output of every accepted case + runtime tie (designed programs with nested counterparts of mixed shapes must be accepted by rustc)"
@@ -1005,8 +1108,11 @@ def run_oracle(prop, cases, results, seed, thorough, disagreements):
             out["name"] = "identifier scan of the real output minus the input's identifiers"
             out["failures"], out["evaluated"] = oracle_c20(cases, seed, thorough)
         elif prop == "C11":
-            out["name"] = "every lifetime used in a real impl header is declared by that impl"
+            out["name"] = "real impl headers (syn-parsed): every lifetime used is declared, no parameter declared twice, the type applied in argument form, and the where-clause is the one the instructions designate for that counterpart"
             out["failures"], out["evaluated"] = oracle_c11(cases, seed, thorough)
+            fw, nw = oracle_c11_where(seed, thorough)
+            out["failures"] += fw
+            out["evaluated"] += nw
         elif prop == "C07":
             out["name"] = "owned vs by-reference bodies of symmetric mappings on the real output + runtime tie (all six flavours of one mapping on equal inputs)"
             f7, n7 = oracle_c07(cases, seed, thorough)
